@@ -1,14 +1,14 @@
 CONSTANTS
-  Orders = {7, 11, 13}
+  Orders = {7, 11, 13, 19, 31}
   Algs = {"lwnaf", "lwreg", "monty", "slide", "basic", "dig", "combs", "combd", "fix_basic", "fix_lwnaf",
           "sim_inter", "sim_trick", "sim_joint", "sim_lot",
           "glv_basis", "glv_imp", "glv_reg", "tab", "rec_naf", "rec_reg", "rec_slw", "rec_win", "rec_jsf"}
   Widths = {2, 3, 4, 5}
   Depths = {2, 3, 4}
   Digs = {8, 64}
-  AllBases = FALSE
+  AllBases = TRUE
   FPSlack = 0
-  GlvOrders = {7, 13}
+  GlvOrders = {7, 13, 19, 31, 37, 43, 61, 67}
 SPECIFICATION Spec
 INVARIANTS InvLwnaf InvLwreg InvMonty InvSlide InvBasic InvDig InvCombs InvCombd InvFixBasic InvFixLwnaf
            InvSimInter InvSimTrick InvSimJoint InvSimLot
